@@ -5,6 +5,9 @@ pub mod c07;
 pub mod c08;
 pub mod c09;
 pub mod c10;
+pub mod c15;
+pub mod c16;
+pub mod c17;
 pub mod c18;
 pub mod c19;
 pub mod sets;
@@ -22,6 +25,9 @@ pub fn run(id: &str, tier: Tier, seed: u64, known: &[Known]) -> Option<Report> {
         "C08" => c08::run(tier, seed),
         "C09" => c09::run(tier, seed),
         "C10" => c10::run(tier, seed),
+        "C15" => c15::run(tier, seed),
+        "C16" => c16::run(tier, seed),
+        "C17" => c17::run(tier, seed),
         "C18" => c18::run(tier, seed),
         "C19" => c19::run(tier, seed),
         "C20" => c20::run(tier, seed),
@@ -36,6 +42,9 @@ pub fn replay(id: &str, section: &str, case: &Value) -> Option<Result<(), String
         "C08" => c08::replay(section, case),
         "C09" => c09::replay(section, case),
         "C10" => c10::replay(section, case),
+        "C15" => c15::replay(section, case),
+        "C16" => c16::replay(section, case),
+        "C17" => c17::replay(section, case),
         "C18" => c18::replay(section, case),
         "C19" => c19::replay(section, case),
         "C20" => c20::replay(section, case),
